@@ -41,7 +41,13 @@ def explore(ctx: Ctx, prefix: str, seed_salt: int):
     th.start()
     space = batch.export_by_print("MC_AlignCore", "Export_AlignCore.cfg", ctx.workdir, workers=4)
     step = 4 if quick else 1
-    lattice = [alignlib.run_align(inp, True) for inp in space[::step]]
+    # model-guided inputs: random walks of the same model with larger constants; TLC prints the input whenever the walk
+    # reaches a resolver situation that random real inputs rarely reach (a member cut down to one pair compared
+    # again, a cut strictly inside the overlap, a comparison that skips an emptied member)
+    guided = batch.export_by_print("MC_AlignCore", "Guided_AlignCore.cfg", ctx.workdir, workers=8,
+                                   simulate="num=%d" % (500 if quick else 20000), depth=200,
+                                   extra=["-seed", str(ctx.seed + 11)], timeout=1800)
+    lattice = [alignlib.run_align(inp, True) for inp in space[::step] + guided]
     n = 4000 if quick else 80000
     ladder = gen.parallel(alignlib.ladder_records, ctx.seed * 9176 + seed_salt, n, chunk=250)
     records = lattice + ladder
@@ -49,7 +55,7 @@ def explore(ctx: Ctx, prefix: str, seed_salt: int):
                                  workers=16)
     ctx.add_traces(len(records))
     ctx.notes["trace_validation"] = {"states": r.distinct, "wall_s": round(r.wall_s, 1),
-                                     "lattice_inputs_from_tlc": len(lattice), "ladder_inputs": len(ladder),
+                                     "lattice_inputs_from_tlc": len(lattice), "of_which_model_guided": len(guided), "ladder_inputs": len(ladder),
                                      "multi_segment_rows": sum(1 for x in records if alignlib.multi_segment(x))}
     out = []
     for tid, (failed, drift) in sorted(verdicts.items()):
